@@ -7,9 +7,9 @@ Families
                  tensor layouts (flat, broadcast, 0-dim) and two dtypes; oracle = mpmath.diff of the
                  textbook closed-form price (models/bs_closed.py); the implementation's own price is
                  bound to that closed form at every grid point.
-                 The same grid runs through user modules: subclasses of the 4 modules overriding ``price`` (payout
-                 multiplier) or ``price`` and ``delta``, and modules built directly on BSModuleMixin - every Greek that
-                 /repo derives from self.price must be the derivative of the subclass's price.
+                 The same grid runs through user modules built directly on BSModuleMixin that define only ``price``
+                 (the mixin's default Greeks differentiate self.price).  Optional diagnostic outside the claim
+                 (VERIF_USER_SUBCLASS=1): subclasses of the 4 concrete modules overriding ``price`` / ``price`` + ``delta``.
   bs_bound       BlackScholes(derivative) modules reading (log-moneyness, max, maturity, volatility)
                  from a scripted derivative (all |A|^T paths), Greeks called without arguments.
   programs       pfhedge.autogreek.{delta,gamma,vega,theta} on ALL pricer programs of an expression
@@ -26,6 +26,7 @@ from __future__ import annotations
 
 import itertools
 import math
+import os
 
 import mpmath as mp
 import torch
@@ -235,6 +236,13 @@ def site_name(entry, product, what):
 # not go through self.price (all four of BSEuropeanOption / BSEuropeanBinaryOption, the delta of
 # BSAmericanBinaryOption and BSLookbackOption): a subclass overriding only ``price`` is not required to get
 # consistent values for those, and they are skipped for subclasses.
+# Subclasses of the CONCRETE library modules (overriding ``price`` / ``price`` and ``delta``) are an optional
+# diagnostic OUTSIDE the claim: the property speaks of the library's own Black-Scholes modules, and a maintainer may
+# legitimately switch e.g. BSAmericanBinaryOption.gamma to its analytic form, which only such a subclass could
+# observe.  Off by default; VERIF_USER_SUBCLASS=1 turns the two kinds on.  (The module built directly on
+# BSModuleMixin that defines only ``price`` stays in: the mixin documents that its default Greeks differentiate
+# self.price.)
+USER_SUBCLASS_WORLDS = os.environ.get("VERIF_USER_SUBCLASS") == "1"
 FROM_SELF_PRICE = {"european": (), "european_binary": (), "american_binary": ("gamma", "vega", "theta"),
                    "lookback": ("gamma", "vega", "theta")}
 PAYOUT = 250.0
@@ -1115,14 +1123,17 @@ def run(ctx):
     for b in alias_blocks:
         ctx.run("bs_greeks", b)
     # ---- user modules: subclasses overriding price (payout multiplier), price + delta, and modules built on the mixin
-    ctx.assume("Greeks of a user subclass are checked only where the module of /repo derives them from self.price "
-               "(BSAmericanBinaryOption / BSLookbackOption gamma, vega, theta; every default Greek of BSModuleMixin); the "
-               "analytic Greeks of /repo that do not go through self.price are skipped for subclasses (listed in the "
-               "coverage as subclass_greeks_skipped_analytic_in_repo)")
+    if USER_SUBCLASS_WORLDS:
+        ctx.assume("VERIF_USER_SUBCLASS=1 (diagnostic outside the claim): Greeks of a user subclass of a concrete module are "
+                   "checked only where the module of /repo derives them from self.price (BSAmericanBinaryOption / "
+                   "BSLookbackOption gamma, vega, theta); the analytic Greeks of /repo that do not go through self.price are "
+                   "skipped for subclasses (listed in the coverage as subclass_greeks_skipped_analytic_in_repo)")
     user_blocks = []
     sub_s = [-0.5, -0.2, -0.05, 0.05, 0.5]
     for product in B.PRODUCTS:
-        ents = ["mixin"] + (["subclass", "subclass_delta"] if FROM_SELF_PRICE[product] else ["subclass"])
+        ents = ["mixin"]
+        if USER_SUBCLASS_WORLDS:
+            ents += ["subclass", "subclass_delta"] if FROM_SELF_PRICE[product] else ["subclass"]
         for call in ([True, False] if product in ("european", "european_binary") else [True]):
             user_blocks.append({"product": product, "call": call, "Ks": [2.5] if quick else [1.0, 1.3, 2.5],
                                 "grid": {"s": sub_s, "t": t_alpha, "v": v_alpha, "m": m_alpha}, "entries": ents,
